@@ -4,6 +4,7 @@ import (
 	"flag"
 	"fmt"
 	"os"
+	"runtime/pprof"
 	"sort"
 	"strings"
 	"time"
@@ -12,6 +13,11 @@ import (
 )
 
 func main() {
+	if pf := os.Getenv("IONVC_PROF"); pf != "" {
+		f, _ := os.Create(pf)
+		pprof.StartCPUProfile(f)
+		defer pprof.StopCPUProfile()
+	}
 	if len(os.Args) < 2 {
 		fmt.Fprintln(os.Stderr, "usage: ionvc dev|check ...")
 		os.Exit(2)
@@ -19,6 +25,7 @@ func main() {
 	switch os.Args[1] {
 	case "dev":
 		dev(os.Args[2:])
+		pprof.StopCPUProfile()
 	case "check":
 		os.Exit(check(os.Args[2:]))
 	case "lock":
